@@ -1,4 +1,4 @@
-CONSTANTS DBs = {"A", "B"} Keys = {"k1", "k2"} Vals = {1, 2} MaxFlush = 99 MaxDrops = 99 MaxWrites = 99 MarkOthers = TRUE
+CONSTANTS DBs = {"A", "B"} Keys = {"k1", "k2", "k3"} Vals = {1, 2, 3} MaxFlush = 99 MaxDrops = 99 MaxWrites = 99 MarkOthers = TRUE
 SPECIFICATION TSpec
 CONSTRAINT Mark
 POSTCONDITION Accepted
